@@ -8,20 +8,19 @@ MANIFEST = {
             "each operation commutes with S), calc_timeout_bounds (+ uint16 wrap witness), wait_le_earliest / wait_le_every_deadline (any "
             "state, all sessions, incl. the 32-bit reduction); retransmit_schedule, single_outcome, no_tx_without_pending, due_fires for "
             "every event sequence of the timer system S.  For the code model M (coap_send/coap_wait_ack, coap_retransmit, due loop of "
-            "coap_io_prepare_io_lkd, ACK/RST dispatch, NSTART gate + delay queue), EVERY event sequence over the C06 alphabet, any number "
-            "of messages and sessions sharing the queue: m_schedule_all (punctual runs: every transmission at t0 + (2^k-1)T of its own "
-            "coap_send, T the ONE coap_calc_timeout value drawn at that submission, k <= MAX_RETRANSMIT), m_pending_on_schedule, "
-            "m_giveup_after_all_retransmissions, m_at_most_max_retransmissions, m_due_fires, punctual_of_clock (sleeping no longer "
-            "than the returned wait gives a punctual run), m_single_outcome (accepted sends = outcome NACKs + ACK completions + queued + "
-            "delayed), m_never_sent_again, "
-            "m_pdu_and_timeout_fixed (mid/token/type and stored timeout of every queued or delayed node are those of its coap_send; only "
-            "t and retransmit_cnt change).  m_refines_timer_partial: exact simulation M -> S (same pending list, same observable outputs "
-            "in order) when CONs are submitted with NSTART room and no submission/RST races a due retransmission.  M is tied to the "
-            "compiled code on every run by exact trace equality on a virtual-time harness (transmissions with timestamps and byte "
-            "identity, NACKs, con_active, the whole send queue after every event), incl. every drop subset of the first 10 datagrams.",
+            "coap_io_prepare_io_lkd, dispatch, NSTART gate + delay queue), EVERY event sequence that keeps sessions established, any "
+            "number of messages and sessions sharing the queue: m_schedule_all (punctual runs: every CON transmission at t0 + (2^k-1)T "
+            "of its own coap_send, T the ONE coap_calc_timeout value drawn there, k <= MAX_RETRANSMIT), m_pending_on_schedule, "
+            "m_giveup_after_all_retransmissions, m_at_most_max_retransmissions, m_due_fires, punctual_of_clock, m_single_outcome "
+            "(accepted sends = outcome NACKs + ACK completions + queued + delayed), m_never_sent_again; for EVERY event and state "
+            "pdu_and_timeout_never_modified (mid/token/type and stored timeout of a node never change).  m_refines_timer_partial: exact "
+            "simulation M -> S (same pending list, same observable outputs in order) when CONs are submitted with NSTART room and no "
+            "submission/RST races a due retransmission.  M is tied to the compiled code on every run by exact trace equality on a "
+            "virtual-time harness (transmissions with timestamps and byte identity, NACKs, con_active, the whole send queue after "
+            "every event), incl. every drop subset of the first 10 datagrams.",
     "note": "Trusted: Lean kernel (+ propext, Classical.choice, Quot.sound), harness/sim_core.h + msg.c (--wrap clock/network), the scenario "
             "interpreter Driver/Msg.lean, generators/oracles, the hand transcription M (checked on the cases run only).  M-level theorems: "
-            "C06 alphabet on established sessions, no-wrap range D7, T > 0 (NON, cancel by token, invalid codes, session failure are C08's).  "
+            "sessions stay established (no hold/disconnect: session failure is C08's), no-wrap range D7, T > 0.  "
             "M has no PDU bytes: byte identity = constancy of the node fields standing for the PDU (Lean) + byte comparison of every "
             "retransmitted datagram on the real code (T2).  The exact simulation is `_partial` because S's tick fires everything due "
             "before anything else at an instant (same-instant ORDER differs for a delayed message let in by a give-up, or a submission / "
@@ -39,6 +38,7 @@ REQUIRED_THEOREMS = ["queue_abs_invariant", "insert_commutes", "pop_commutes", "
                      "wait_le_every_deadline", "m_schedule_all", "m_pending_on_schedule", "m_due_fires", "m_single_outcome",
                      "m_never_sent_again", "m_pdu_and_timeout_fixed", "m_giveup_after_all_retransmissions",
                      "m_at_most_max_retransmissions", "sleep_returned_wait_ok", "punctual_of_clock",
+                     "pdu_and_timeout_never_modified", "pdu_and_timeout_never_modified_step",
                      "m_refines_timer_partial", "m_refines_timer_from_partial", "m_schedule_via_timer_partial",
                      "m_single_outcome_via_timer_partial"]
 RULE = ("scenario lines for harness/msg.c (one real client context, 1-3 UDP sessions sharing the send queue, virtual clock, "
@@ -59,8 +59,8 @@ ASSUMPTIONS = ["D7: ping_timeout = 0; transmission parameters where Q()'s uint16
                "T << MAX_RETRANSMIT < 2^64",
                "retransmit_schedule / m_schedule_all: the application runs the I/O loop no later than the wait the library returned "
                "(`Punctual`: no I/O step, submission or arrival after the clock was moved past a pending deadline)",
-               "M-level theorems: the C06 alphabet (setNow monotone, prepare, coap_send of a CON, ACK, RST) on sessions that are "
-               "established with an open socket, NSTART >= 1, nothing delayed initially",
+               "M-level theorems (section 7): every event except hold/disconnect, on sessions that are established with an open "
+               "socket, NSTART >= 1, nothing delayed initially; pdu_and_timeout_never_modified: no assumption",
                "UDP client sessions, block mode off, no OSCORE, unicast; real-time behaviour of epoll_wait is not modelled "
                "(the harness is the event loop)",
                "compiled Lean definitions agree with the kernel's reading of them"]
